@@ -2,9 +2,19 @@ package c05
 
 import (
 	"fmt"
+	"io"
+	"log"
+	"os"
 	"strings"
 	"testing"
 )
+
+// The scenarios of DESIGN §12 rows 13-16 (and the stale missing| row), kept as a readable trace:
+// run with `cd /repo && go test -C /verif/harness -tags verif -run Explore -v ./props/c05/`.
+func TestMain(m *testing.M) {
+	log.SetOutput(io.Discard)
+	os.Exit(m.Run())
+}
 
 // script runs op lines on a fresh exec; `def` lines are given as specs and built first.
 func runScript(t *testing.T, specs []*Spec, ops ...string) []string {
